@@ -18,46 +18,27 @@ def _fit_jonswap(ef, freq, fp0, hs0, gamma0=1.5):
         - p1 (list): Fitted values for hs, fp and gamma.
 
     """
-    import warnings
-    from scipy.optimize import OptimizeWarning
-
-    with warnings.catch_warnings():
-        warnings.filterwarnings("error")
-
-        if np.isnan(fp0) or (hs0 < 1e-10):
-            p1 = np.array(
-                [
-                    np.nan,
-                ]
-                * 3
-            )
-        else:
-            try:
-                p1, cov = curve_fit(
-                    f=npstats.jonswap,
-                    xdata=freq,
-                    ydata=ef,
-                    p0=[fp0, hs0, gamma0],
-                    bounds=(
-                        np.array([np.min(freq), 1e-10, 0.1]),
-                        np.array([np.max(freq), 30.0, 20.0]),
-                    ),
-                )
-            except (ValueError, RuntimeError):
-                p1 = np.array(
-                    [
-                        np.nan,
-                    ]
-                    * 3
-                )
-            except OptimizeWarning:
-                p1 = np.array(
-                    [
-                        np.nan,
-                    ]
-                    * 3
-                )
-
+    # The warnings filters are process-wide and warnings.catch_warnings is not thread
+    # safe, so unreliable fits are identified from the covariance instead of turning
+    # the OptimizeWarning into an error (dask may run this function in several threads)
+    if np.isnan(fp0) or (hs0 < 1e-10):
+        return np.array([np.nan] * 3)
+    try:
+        p1, cov = curve_fit(
+            f=npstats.jonswap,
+            xdata=freq,
+            ydata=ef,
+            p0=[fp0, hs0, gamma0],
+            bounds=(
+                np.array([np.min(freq), 1e-10, 0.1]),
+                np.array([np.max(freq), 30.0, 20.0]),
+            ),
+        )
+    except (ValueError, RuntimeError):
+        return np.array([np.nan] * 3)
+    # curve_fit fills the covariance with inf when it could not be estimated
+    if np.isinf(cov).all():
+        return np.array([np.nan] * 3)
     return p1
 
 
@@ -87,44 +68,20 @@ def _fit_gaussian(ef, freq, fp0, hs0, gw):
         - p1 (list): Fitted values for hs, fp and gamma.
 
     """
-    import warnings
-    from scipy.optimize import (
-        OptimizeWarning,
-    )  # Covariance - warning make nans for unreliable fits
-
-    with warnings.catch_warnings():
-        warnings.filterwarnings("error")
-
-        if np.isnan(fp0) or (hs0 < 1e-10):
-            p1 = np.array(
-                [
-                    np.nan,
-                ]
-                * 3
-            )
-        else:
-            try:
-                p1, cov = curve_fit(
-                    f=npstats.gaussian,
-                    xdata=freq,
-                    ydata=ef,
-                    p0=[fp0, hs0, gw],
-                )
-            except (ValueError, RuntimeError):
-                p1 = np.array(
-                    [
-                        np.nan,
-                    ]
-                    * 3
-                )
-            except OptimizeWarning:
-                p1 = np.array(
-                    [
-                        np.nan,
-                    ]
-                    * 3
-                )
-
+    # See _fit_jonswap, unreliable fits are identified from the covariance
+    if np.isnan(fp0) or (hs0 < 1e-10):
+        return np.array([np.nan] * 3)
+    try:
+        p1, cov = curve_fit(
+            f=npstats.gaussian,
+            xdata=freq,
+            ydata=ef,
+            p0=[fp0, hs0, gw],
+        )
+    except (ValueError, RuntimeError):
+        return np.array([np.nan] * 3)
+    if np.isinf(cov).all():
+        return np.array([np.nan] * 3)
     return p1
 
 
